@@ -410,13 +410,16 @@ func c06r2(c *Ctx) {
 			o.Unknown("phase call does not return a controllerOf list")
 			continue
 		}
+		// alternative phase calls deliver into one variable: the appended list is judged on the
+		// paths that executed this call
+		w := p.pfAfter(cv)
 		isAcc := func(in ssa.Instruction) bool {
 			ac, ok := in.(*ssa.Call)
 			if !ok {
 				return false
 			}
 			b, isB := ac.Common().Value.(*ssa.Builtin)
-			return isB && b.Name() == "append" && len(ac.Common().Args) == 2 && p.pfIsResultOf(ac.Common().Args[1], cv, ri)
+			return isB && b.Name() == "append" && len(ac.Common().Args) == 2 && w.isResult(ac.Common().Args[1], ri)
 		}
 		var bad []string
 		for _, t := range pfLoopTailsAfter(cv, lc.Loop) {
@@ -520,12 +523,37 @@ func (p *Program) c06MappedMeansSlash() bool {
 	if len(rcs) != 1 {
 		return false
 	}
-	call, _ := asCall(rcs[0].Results[0])
-	if call == nil || !isCallTo(call.Common(), "strings.Contains") || !isStringConst(call.Common().Args[1], "/") {
+	subject, ok := c06ContainsSlash(rcs[0].Results[0])
+	if !ok {
 		return false
 	}
-	root, ok := p.pfFieldLoad(call.Common().Args[0], "Type")
+	root, ok := p.pfFieldLoad(subject, "Type")
 	return ok && p.pfRootValue(root) == ssa.Value(fn.Params[0])
+}
+
+// c06ContainsSlash: v is true exactly when string s contains '/': strings.Contains(s, "/"),
+// strings.ContainsRune(s, '/'), strings.ContainsAny(s, "/"), or strings.Index/IndexByte/IndexRune(s,
+// '/') compared with 0 / -1. Returns s.
+func c06ContainsSlash(v ssa.Value) (ssa.Value, bool) {
+	slash := func(a ssa.Value) bool {
+		if isStringConst(a, "/") {
+			return true
+		}
+		n, isInt := constInt(a)
+		return isInt && n == '/'
+	}
+	if call, _ := asCall(v); call != nil {
+		if isCallTo(call.Common(), "strings.Contains", "strings.ContainsRune", "strings.ContainsAny") && len(call.Common().Args) == 2 && slash(call.Common().Args[1]) {
+			return call.Common().Args[0], true
+		}
+		return nil, false
+	}
+	if x, trueMeansNegative, ok := pfNegativeTest(v); ok && !trueMeansNegative {
+		if call, _ := asCall(x); call != nil && isCallTo(call.Common(), "strings.Index", "strings.IndexByte", "strings.IndexRune") && len(call.Common().Args) == 2 && slash(call.Common().Args[1]) {
+			return call.Common().Args[0], true
+		}
+	}
+	return nil, false
 }
 
 // c06TypeCannotBeSucceeded decides whether a non-constant condition Type can be "Succeeded".
@@ -645,7 +673,7 @@ func c06r3(c *Ctx) {
 				inTr := false
 				for _, f := range fs {
 					fc, _ := asCall(f.Cond)
-					if !f.Pol && fc != nil && c06IsTransitionTest(fc) {
+					if !f.Pol && fc != nil && p.c06IsTransitionTest(fc) {
 						inTr = true
 					}
 				}
@@ -869,14 +897,23 @@ func c06MentionsField(v ssa.Value, field string, d int) bool {
 	return false
 }
 
-// c06IsTransitionTest: a static call with signature (ObjectSetAccessor, []ControlledObjectReference) bool.
-func c06IsTransitionTest(call *ssa.Call) bool {
+// c06IsTransitionTest: a static call with signature (<ObjectSet>, []ControlledObjectReference) bool,
+// where <ObjectSet> is the ObjectSetAccessor or any other (non-empty) interface the ObjectSet adapters
+// satisfy — a parameter narrowed to the methods the test uses is still given the ObjectSet.
+func (p *Program) c06IsTransitionTest(call *ssa.Call) bool {
 	callee := staticCallee(call.Common())
 	if callee == nil {
 		return false
 	}
 	sig := callee.Signature
-	return sig.Params().Len() == 2 && isObjectSetAccessorType(sig.Params().At(0).Type()) &&
+	isSet := func(t types.Type) bool {
+		if isObjectSetAccessorType(t) {
+			return true
+		}
+		iface, ok := t.Underlying().(*types.Interface)
+		return ok && iface.NumMethods() > 0 && p.c06CouldBeObjectSet(t)
+	}
+	return sig.Params().Len() == 2 && isSet(sig.Params().At(0).Type()) &&
 		strings.Contains(sig.Params().At(1).Type().String(), "ControlledObjectReference") &&
 		sig.Results().Len() == 1 && sig.Results().At(0).Type().String() == "bool"
 }
@@ -896,7 +933,7 @@ func c06r4(c *Ctx) {
 			var test *ssa.Call
 			for _, f := range p.FactsAt(rm.Call.Instr.Block()) {
 				fc, _ := asCall(f.Cond)
-				if !f.Pol && fc != nil && c06IsTransitionTest(fc) {
+				if !f.Pol && fc != nil && p.c06IsTransitionTest(fc) {
 					test = fc
 				}
 			}
@@ -1149,7 +1186,8 @@ func (p *Program) c06ReconciledObject(fn *ssa.Function) (ssa.Value, *ssa.Call) {
 }
 
 func (p *Program) c06ArgIsObject(a, X ssa.Value) bool {
-	r := p.pfRootValue(a)
+	// the object may be handed over as a narrower interface (implicit conversion at the call)
+	r := p.pfRootValue(stripConv(a))
 	if r == X {
 		return true
 	}
